@@ -375,7 +375,15 @@ func c06b(c *Ctx, a *absVariant) {
 						for k, l := range as.Lhs {
 							if nospace(l) == gd && k < len(as.Rhs) {
 								n++
-								if rhs := nospace(as.Rhs[k]); rhs != "p.memoize" && rhs != "false" {
+								// the local is the option itself, or a conjunction one of whose members is the option
+								rhs := nospace(as.Rhs[k])
+								has := rhs == "false"
+								for _, cj := range splitTop(minParens(rhs), "&&") {
+									if minParens(cj) == "p.memoize" {
+										has = true
+									}
+								}
+								if !has {
 									okDefs = false
 								}
 							}
